@@ -49,7 +49,7 @@ def run_model(c, coverage=False):
 def _replay(lines, families, asrt, lockstep, repo, procs=16):
     with core.pool(ops_replay.worker_init, (repo, asrt), procs) as p:
         size = max(50, min(2000, len(lines) // (procs * 4) + 1))
-        parts = p.map(ops_replay.replay_chunk, [(ch, families, lockstep) for ch in core.chunks(lines, size)])
+        parts = core.pmap(p, ops_replay.replay_chunk, [(ch, families, lockstep) for ch in core.chunks(lines, size)])
     tot = {"n": 0, "same": 0, "known": {}, "attention": [], "per_family": {}, "recursion": 0, "lockstep_diff": [],
            "dropped": 0}
     tot["pcs"] = set()
@@ -238,7 +238,7 @@ def run_quiet(tier, repo=None, procs=16):
     sub = lines[core.seed() % k::k]
     with core.pool(ops_replay.worker_init, (repo, False), procs) as p:
         size = max(50, min(2000, len(sub) // (procs * 4) + 1))
-        parts = p.map(ops_replay.replay_chunk_quiet, [(ch, ["mixin", "light", "node"]) for ch in core.chunks(sub, size)])
+        parts = core.pmap(p, ops_replay.replay_chunk_quiet, [(ch, ["mixin", "light", "node"]) for ch in core.chunks(sub, size)])
     tot = {"n": sum(r["n"] for r in parts), "same": sum(r["same"] for r in parts), "attention": [a for r in parts for a in r["attention"]],
            "config": c, "tlc": stats, "asrt": False}
     events, index = [], {}
